@@ -28,6 +28,13 @@ TARGETS = {
     "a5/core/hilbert.py": (["quaternary_to_kj", "quaternary_to_flips", "kj_to_ij", "ij_to_kj", "ij_to_quaternary", "s_to_anchor", "_s_to_anchor", "ij_to_s",
                             "_ij_to_s", "get_required_digits", "shift_digits", "_shift_digits"], ["C18"]),
 }
+FUNC_CHECKS = {
+    "serialize": ["C05", "C06"], "deserialize": ["C05", "C06"], "get_resolution": ["C05", "C06"],
+    "cell_to_children": ["C06", "C20", "C10"], "cell_to_parent": ["C06", "C09"], "get_res0_cells": ["C06", "C20"],
+    "get_stride": ["C09", "C08"], "is_first_child": ["C09", "C08"], "compact": ["C09", "C08"], "_hierarchy_key": ["C09", "C08"],
+    "uncompact": ["C10"], "get_num_cells": ["C20"], "get_num_children": ["C20", "C10"], "cell_area": ["C20"],
+    "u64_to_hex": ["C19"], "hex_to_u64": ["C19"],
+}
 CMP = {ast.Lt: "<", ast.LtE: "<=", ast.Gt: ">", ast.GtE: ">=", ast.Eq: "==", ast.NotEq: "!="}
 CMP_SWAP = {"<": ["<="], "<=": ["<"], ">": [">="], ">=": [">"], "==": ["!="], "!=": ["=="]}
 BIN = {ast.Add: "+", ast.Sub: "-", ast.LShift: "<<", ast.RShift: ">>", ast.Mult: "*", ast.FloorDiv: "//", ast.Mod: "%", ast.BitAnd: "&", ast.BitOr: "|"}
@@ -118,7 +125,7 @@ def drop(wt):
 
 def tests_pass(wt, nproc="4"):
     try:
-        p = subprocess.run(["/venv/bin/python", "-m", "pytest", "-q", "-x", "-p", "no:cacheprovider", "-n", nproc], cwd=wt, capture_output=True, text=True, timeout=600)
+        p = subprocess.run(["/venv/bin/python", "-m", "pytest", "-q", "-x", "-p", "no:cacheprovider", "-n", nproc], cwd=wt, capture_output=True, text=True, timeout=120)
     except subprocess.TimeoutExpired:
         return False, "timeout"
     tail = (p.stdout.strip().splitlines() or [""])[-1]
@@ -139,6 +146,9 @@ def main():
         cat.sort(key=lambda m: m["id"])
         if n:
             cat = cat[:n]
+        after = os.environ.get("MUT_AFTER")
+        if after:
+            cat = [m for m in cat if m["id"] > after]
         from concurrent.futures import ThreadPoolExecutor
 
         def one(m):
@@ -154,7 +164,7 @@ def main():
             finally:
                 drop(wt)
         surv = []
-        with ThreadPoolExecutor(4) as ex:
+        with ThreadPoolExecutor(5) as ex:
             for k, r in enumerate(ex.map(one, cat)):
                 if r:
                     surv.append(r)
@@ -174,7 +184,7 @@ def main():
             try:
                 apply(m, wt)
                 env = dict(os.environ, A5VERIF_REPO=wt)
-                for c in m["checks"]:
+                for c in FUNC_CHECKS.get(m["func"], m["checks"]):
                     try:
                         p = subprocess.run(["python3-vt", "-m", "a5verif", "check", c, "--tier", "quick"], cwd="/verif", env=env, capture_output=True, text=True, timeout=2400)
                         first = [l for l in p.stdout.splitlines() if "failed obligation" in l][:1]
